@@ -229,6 +229,7 @@ class Hooks:
         self.interesting = set()  # slots holding a module-built / reinitialised two-network state
         self.nontrivial = False
         self.batch_aux = []       # (epoch, batch, max |phase aux_bias|) seen by a callback at every on_batch_end of the current fit
+        self.cut = False          # set when the implementation's outcome is unconstrained by the property and the model cannot follow it: the history ends
 
     def theorem(self, op, comp):
         return {"construct": "C20_sizes", "constructFrom": "C20_module, C20_module_sizes_from_module, C20_module_args_ignored", "write": "C20_no_alias", "writeModule": "C20_no_alias",
@@ -290,6 +291,18 @@ class Hooks:
         # AUXILIARY (audit2-4 C20-2): registration order and names of the parameters are C03 / C06's invariant (vector_to_grads), not a clause of C20
         ctx.point("every network keeps its parameters registered in the documented order", "aux", all(order_ok(x) for x in nets), True, cs, exact=True,
                   sig=f"{t}/parameter-order")
+        # audit 3 (B6, same class in the histories): num_hidden = 0 of a BinaryRBM-based network means num_visible in the present code (an
+        # artefact of `if num_hidden`, documented nowhere and not "the requested shape"). An implementation that keeps the requested 0, or
+        # refuses it, is as good: recorded, and the history ends here (the model, which codes the 0 -> n rule, cannot follow)
+        if op.get("nh") == 0 and ((t == "construct" and op["kind"] in ("pos", "cplx")) or (t == "mkModule" and op["k"] == "binary")):
+            objs = []
+            if err is None:
+                objs = [getattr(real.models[op["slot"]], n) for n in real.models[op["slot"]].networks] if t == "construct" else [real.modules[op["mslot"]]]
+            coded = err is None and all(int(x.num_hidden) == int(op["nv"]) for x in objs)
+            ctx.info(f"{t}/num_hidden=0 means num_visible (coded rule of BinaryRBM, not documented)", coded, True)
+            if not coded:
+                self.cut = True
+                return
         if t == "construct" and err is None:
             st = real.models[op["slot"]]
             self.interesting.discard(op["slot"])
